@@ -15,7 +15,7 @@ Safety model (bank-grade, fail closed):
 import json
 import logging
 import time
-from typing import Dict, Set
+from typing import Dict, List, Optional, Set
 
 from .file_manager import FileManager
 from .metadata_manager import MetadataManager
@@ -136,11 +136,16 @@ class GarbageCollector:
         if protected_files:
             logger.info(f"Protecting {len(protected_files)} in-flight files from GC")
 
-        # 4. List all files in storage and delete orphans
+        # 4. List all files in storage and delete orphans. EVERY prefix is
+        # listed and validated before the first delete: a listing that fails, or
+        # that contains a path outside the table root, aborts the collection
+        # with nothing deleted (not after the earlier prefix was already swept).
+        data_listing = self._list_prefix("data")
+        manifest_listing = self._list_prefix(self.file_manager.manifests_path)
 
         # GC Data Files
         stats["data_files"] = self._gc_prefix(
-            "data", reachable_data_files | protected_files, grace_period_ms
+            "data", reachable_data_files | protected_files, grace_period_ms, data_listing
         )
 
         # GC Manifests (files in the real manifests directory that are NOT
@@ -152,6 +157,7 @@ class GarbageCollector:
             self.file_manager.manifests_path,
             all_reachable_manifests | protected_files,
             grace_period_ms,
+            manifest_listing,
         )
 
         logger.info(f"Garbage collection complete. Deleted: {stats}")
@@ -230,13 +236,10 @@ class GarbageCollector:
             return fallback
         return {self._normalize_path(target)}
 
-    def _gc_prefix(self, prefix: str, reachable_set: Set[str], grace_period_ms: int) -> int:
-        """Garbage collect files in a specific prefix."""
-        deleted_count = 0
-        cutoff_time = (time.time() * 1000) - grace_period_ms
-
+    def _list_prefix(self, prefix: str) -> List[str]:
+        """List a prefix and validate the WHOLE listing before anything is deleted."""
         try:
-            all_files = self.storage.list_files(prefix)
+            all_files = list(self.storage.list_files(prefix))
         except Exception as e:
             raise GarbageCollectionAborted(
                 f"Aborting GC: cannot list files under {prefix}: {e}"
@@ -244,7 +247,6 @@ class GarbageCollector:
 
         for file_rel_path in all_files:
             norm_path = self._normalize_path(file_rel_path)
-
             # Independent guard against the #45 class of bug: a listed path that
             # escapes the table root can never be matched against the reachable
             # set, so every live file would look like an orphan. Abort rather
@@ -254,6 +256,24 @@ class GarbageCollector:
                     f"Aborting GC: storage listing under '{prefix}' returned a path outside "
                     f"the table root ({file_rel_path!r}). Reachability cannot be determined."
                 )
+        return all_files
+
+    def _gc_prefix(
+        self,
+        prefix: str,
+        reachable_set: Set[str],
+        grace_period_ms: int,
+        all_files: Optional[List[str]] = None,
+    ) -> int:
+        """Garbage collect files in a specific prefix."""
+        deleted_count = 0
+        cutoff_time = (time.time() * 1000) - grace_period_ms
+
+        if all_files is None:
+            all_files = self._list_prefix(prefix)
+
+        for file_rel_path in all_files:
+            norm_path = self._normalize_path(file_rel_path)
 
             if norm_path not in reachable_set:
                 # Potential orphan. Check age.
